@@ -157,6 +157,20 @@ impl Sim {
             Body::Indication => 1,
             Body::Request => 0,
         };
+        if class == 3 {
+            if r.twist & 1 != 0 {
+                attrs.push(RAttr::Realm("second-realm.invalid".into()));
+            }
+            if r.twist & 2 != 0 {
+                attrs.push(RAttr::Nonce("second-nonce-value".into()));
+            }
+            if r.twist & 4 != 0 {
+                attrs.push(RAttr::ErrorCode { code: 420, reason: "second".into() });
+            }
+            if r.twist & 8 != 0 {
+                attrs.push(RAttr::PasswordAlgorithms(vec![RAlg { id: 1, params: vec![] }]));
+            }
+        }
         for i in 0..(r.extra % 4) {
             attrs.push(match i {
                 0 => RAttr::XorMappedAddress(RAddr::V4([192, 0, 2, 1], 32853)),
@@ -759,7 +773,7 @@ impl Sim {
                 let _ = i;
                 let kind_sha = self.server_key_for(None).1;
                 let ok = if kind_sha { facts.sha == Some(true) } else { facts.mi == Some(true) };
-                if self.desync {
+                if self.desync || !self.lt_key_certain() {
                 } else if self.lt_sess.is_none() {
                     out.push(finding(&["C08"], "response delivered before any challenge was accepted (no key to verify it with)".into()));
                 } else if !ok && !self.desync {
@@ -873,7 +887,7 @@ impl Sim {
                 }
             }
             Mech::LongTerm => {
-                if self.desync {
+                if self.desync || !self.lt_key_certain() {
                     return;
                 }
                 let _ = i;
